@@ -7,6 +7,13 @@
      connect  c srv strict st         CONNECT_REQ (services by name, strictness as sent) and the state after it
      service  c srv strict reset discard st   SERVICE_REQ; discard: the client library threw away its unread frames
      drop     c st                    connection closed and removed
+     reject   c st                    CONNECT_REQ for services the device has none of: processed (service update), refused,
+                                      connection closed and removed
+     part     c                       a message of c received in part: the connection is in its read phase
+     other    c t st                  a complete message without effect on the data path taken (token request, notify,
+                                      ioctl, suspend, reclaim confirmation): read phase over
+     overflow                         vbi_proxyd_forward_data found no buffer for the next frame ("queue overflow"):
+                                      never a step of the specification (CanCapture)
      state    st                      (thread variant) the state dump of the preceding connect / service / drop line,
                                       when the acquisition thread restarted by it had to force a buffer free first
                                       (chk = FALSE on that line, the fetch line in between)
@@ -81,13 +88,18 @@ TReset == /\ conn' = [c \in Clients |-> "none"] /\ req' = [c \in Clients |-> NoR
           /\ granted' = [c \in Clients |-> {}] /\ open' = FALSE /\ devsrv' = {}
           /\ queue' = <<>> /\ nfree' = 0 /\ cur' = [c \in Clients |-> 0] /\ frame' = 0
           /\ sock' = [c \in Clients |-> <<>>] /\ tmp' = FALSE /\ owed' = [c \in Clients |-> <<>>]
+          /\ rdp' = [c \in Clients |-> FALSE]
 
 TNext == /\ l <= Len(Log) /\ l' = l + 1
          /\ \/ Ev.e = "accept" /\ Accept(Ev.c)
             \/ Ev.e = "connect" /\ Connect(Ev.c, SetOf(Ev.srv), Level(Ev.strict)) /\ (Ev.chk => DumpOK)
             \/ Ev.e = "service" /\ ServiceReq(Ev.c, SetOf(Ev.srv), Level(Ev.strict), Ev.reset, Ev.discard) /\ (Ev.chk => DumpOK)
             \/ Ev.e = "drop" /\ Disconnect(Ev.c) /\ (Ev.chk => DumpOK)
+            \/ Ev.e = "reject" /\ ConnectRej(Ev.c) /\ (Ev.chk => DumpOK)
             \/ Ev.e = "state" /\ UNCHANGED vars /\ DumpOK
+            \/ Ev.e = "part" /\ Partial(Ev.c)
+            \/ Ev.e = "other" /\ Other(Ev.c) /\ (Ev.chk => DumpOK)
+            \/ Ev.e = "overflow" /\ ~TakeBuffer.ok /\ UNCHANGED vars
             \/ Ev.e = "tick" /\ (IF Threaded THEN TCapture ELSE TTick)
             \/ Ev.e = "fetch" /\ TFetch
             \/ Ev.e = "send" /\ TSend
